@@ -398,6 +398,89 @@ fn comment_variants(base: &Case, rng: &mut Rng, every_gap: bool, random_many: us
     }
 }
 
+const FIXED_VARIANTS: &[(&str, Place)] = &[
+    ("// c", Place::AfterPrev),
+    ("// c", Place::OwnLine),
+    ("/* b */", Place::AfterPrev),
+    ("/* b */", Place::OwnLine),
+    ("/* b */", Place::BeforeNext),
+];
+
+/// Seed-independent: one comment in EVERY token gap of `base`; with `all` every kind/placement
+/// combination in every gap, otherwise the combination rotates with the gap index.
+fn every_gap_fixed(base: &Case, all: bool, out: &mut Vec<Case>) {
+    let toks = match lexm::real_tokens(&base.src) {
+        Ok(t) => t,
+        Err(_) => return,
+    };
+    for g in 0..toks.len() {
+        for (k, (text, place)) in FIXED_VARIANTS.iter().enumerate() {
+            if !all && k != g % FIXED_VARIANTS.len() {
+                continue;
+            }
+            if let Some(s) = mutate::insert_comment(&base.src, &toks, g, text, *place) {
+                out.push(Case {
+                    family: format!("{}+comment1:{}:{:?}", base.family, if text.starts_with("//") { "line" } else { "block" }, place),
+                    name: base.name.clone(),
+                    src: s,
+                    prelude: base.prelude,
+                });
+            }
+        }
+    }
+}
+
+/// The fixed part of every run (both tiers, any seed): hand-written programs covering all
+/// constructs (corpus/C10/every-gap) and programs generated from a constant seed.
+fn fixed_cases() -> Vec<Case> {
+    let mut out = Vec::new();
+    let dir = std::path::Path::new(env!("CARGO_MANIFEST_DIR")).join("../corpus/C10/every-gap");
+    if let Ok(rd) = std::fs::read_dir(&dir) {
+        let mut entries: Vec<_> = rd.flatten().map(|e| e.path()).collect();
+        entries.sort();
+        for p in entries {
+            if p.extension().and_then(|s| s.to_str()) == Some("glu") {
+                if let Ok(src) = std::fs::read_to_string(&p) {
+                    let base = Case { family: "fixed".into(), name: p.file_name().unwrap().to_string_lossy().to_string(), src, prelude: false };
+                    out.push(base.clone());
+                    every_gap_fixed(&base, true, &mut out);
+                    let crlf = Case { family: "fixed+crlf".into(), src: mutate::to_crlf(&base.src), ..base.clone() };
+                    every_gap_fixed(&crlf, false, &mut out);
+                    out.push(crlf);
+                }
+            }
+        }
+    }
+    let mut rng = Rng::new(0xC10_C10);
+    let vm = new_vm(false);
+    let styles = pgen::styles();
+    let layout: Vec<_> = styles.iter().filter(|(n, _)| n.starts_with("layout")).collect();
+    let mut made = 0;
+    let mut attempt = 0;
+    while made < 12 && attempt < 200 {
+        attempt += 1;
+        let depth = 2 + rng.below(3) as u32;
+        let decls = 1 + rng.below(4) as usize;
+        let prog = pgen::Gen { rng: &mut rng }.program(depth, decls);
+        let (sname, st) = layout[attempt % layout.len()];
+        let text = pgen::render(&prog, st.clone(), &mut rng);
+        if canon::canon_ast(&text).is_err() {
+            continue;
+        }
+        // only programs that the formatter handles when they carry no extra comment: the
+        // variants then isolate what a comment in one gap does
+        let e = evaluate(&vm, "fixedgen", &text);
+        if !e.failures.is_empty() {
+            continue;
+        }
+        made += 1;
+        let base = Case { family: format!("fixed-gen:{}", sname), name: format!("fixedgen{}", made), src: text, prelude: false };
+        out.push(base.clone());
+        every_gap_fixed(&base, false, &mut out);
+    }
+    out
+}
+
 fn corpus_cases() -> Vec<Case> {
     let dir = std::path::Path::new(env!("CARGO_MANIFEST_DIR")).join("../corpus/C10");
     let mut out = Vec::new();
@@ -543,6 +626,7 @@ fn main() {
     let thorough = args.thorough();
     let mut rng = Rng::new(args.seed);
     let mut cases: Vec<Case> = corpus_cases();
+    cases.extend(fixed_cases());
 
     // ---- (i) generated programs --------------------------------------------------------
     let n_programs: usize = args.extra.get("programs").and_then(|s| s.parse().ok()).unwrap_or(if thorough { 400 } else { 40 });
